@@ -339,10 +339,11 @@ var c32Model = (&porcupine.NondeterministicModel{
 // ---- schedule hooks of the harness-supplied shards
 
 type c32Hooks struct {
-	bits      []bool
-	i         atomic.Int64
-	closeDone chan struct{}
-	waitClose bool
+	bits       []bool
+	i          atomic.Int64
+	closeDone  chan struct{}
+	waitClose  bool
+	createSpin int
 }
 
 func (h *c32Hooks) bit() bool {
@@ -357,6 +358,16 @@ func (h *c32Hooks) before() {
 	if h.bit() {
 		runtime.Gosched()
 	}
+}
+
+// create runs inside the caller-supplied shard factory (ShardedMap calls it while it looks up or creates the shard of a
+// key; a factory may take any time, so a goroutine may be descheduled here).
+func (h *c32Hooks) create() {
+	if h.createSpin < 1 || !h.bit() {
+		return
+	}
+
+	c32Spin(h.createSpin)
 }
 
 // after runs between the return of the shard operation and the bookkeeping of the sharded map (a place where a
@@ -782,14 +793,17 @@ func (c c32Case) fingerprint() string {
 	return b.String()
 }
 
-func c32Build[K cmp.Ordered](c c32Case, keys []K, rt *rapid.T) (c32Target, *c32Hooks) {
+func c32Build[K cmp.Ordered](c c32Case, keys []K, round int, rt *rapid.T) (c32Target, *c32Hooks) {
 	var h *c32Hooks
 
 	var newMap func() util.LockedMap[K, int]
 
 	if strings.HasSuffix(c.Kind, "-hooked") {
-		h = &c32Hooks{bits: c.Bits, closeDone: make(chan struct{}), waitClose: c.HasClose}
+		h = &c32Hooks{bits: c.Bits, closeDone: make(chan struct{}), waitClose: c.HasClose, createSpin: c.CreateSpin}
+		h.i.Store(int64(round))
 		newMap = func() util.LockedMap[K, int] {
+			h.create()
+
 			return &c32Shard[K]{SingleLockedMap: util.NewSingleLockedMap[K, int](), h: h}
 		}
 	}
